@@ -35,6 +35,9 @@ class get_coord_neighbors:
         "C13.members": "forall(lambda i, j: ((i, j) in result) == edge(self, c, (i, j)), None, None)",
         "C13.once": "distinct_rows(result)",
         "C13.atmost4": "nrows(result) <= 4",
+        # as many rows as there are connections at c
+        "C13.count": "nrows(result) == ite(edge(self, c, (c[0] + 1, c[1])), 1, 0) + ite(edge(self, c, (c[0] - 1, c[1])), 1, 0)"
+        " + ite(edge(self, c, (c[0], c[1] + 1)), 1, 0) + ite(edge(self, c, (c[0], c[1] - 1)), 1, 0)",
     }
     result = T.GuardedRowsT(4, 2)
     props = ["C13"]
@@ -152,3 +155,83 @@ class from_adj_list:
     }
     result = T.RecT("LatticeMaze", connection_list=T.GridT("bool", [2, None, None]))
     props = ["C13", "C07"]
+
+
+# ---------------------------------------------------------------------------------------------- forking points (C13)
+SOLVED_M = T.RecT("SolvedMaze", connection_list=T.GridT("bool", [2, None, None]), solution=T.GridT("int", [None, 2]))
+# number of onward connections of the k-th solution cell, from the single definition of edge()
+_SDEG = (
+    "(ite(edge(self, self.solution[k], (self.solution[k][0] + 1, self.solution[k][1])), 1, 0)"
+    " + ite(edge(self, self.solution[k], (self.solution[k][0] - 1, self.solution[k][1])), 1, 0)"
+    " + ite(edge(self, self.solution[k], (self.solution[k][0], self.solution[k][1] + 1)), 1, 0)"
+    " + ite(edge(self, self.solution[k], (self.solution[k][0], self.solution[k][1] - 1)), 1, 0))"
+)
+_ENDP = "(k == 0 or k == self.solution.shape[0] - 1)"
+# the documented rule: more than one choice at an end of the solution, more than two elsewhere (the previous cell is not a choice)
+_FORK = f"({_SDEG} > ite({_ENDP}, 1, 2) or ({_ENDP} and always_include_endpoints))"
+
+
+def _gen_solved(rng):
+    """a random small maze with a random walk along its connections as solution (concrete reading / failing-input search)"""
+    import numpy as np
+
+    R, C = rng.randint(1, 4), rng.randint(1, 4)
+    conn = np.array([[[rng.random() < 0.6 for _ in range(C)] for _ in range(R)] for _ in range(2)], dtype=bool)
+    conn[0, R - 1, :] = False
+    conn[1, :, C - 1] = False
+    cur = (rng.randrange(R), rng.randrange(C))
+    path = [cur]
+    for _ in range(rng.randint(0, 6)):
+        nb = []
+        r, c = cur
+        if r + 1 < R and conn[0, r, c]:
+            nb.append((r + 1, c))
+        if r - 1 >= 0 and conn[0, r - 1, c]:
+            nb.append((r - 1, c))
+        if c + 1 < C and conn[1, r, c]:
+            nb.append((r, c + 1))
+        if c - 1 >= 0 and conn[1, r, c - 1]:
+            nb.append((r, c - 1))
+        if not nb:
+            break
+        cur = rng.choice(nb)
+        path.append(cur)
+    return {"__cls__": "SolvedMaze", "connection_list": conn, "solution": np.array(path, dtype=np.int64)}
+
+
+@contract(F, "SolvedMaze.get_solution_forking_points")
+class get_solution_forking_points:
+    options = dict(gen=lambda rng: dict(self=_gen_solved(rng), always_include_endpoints=rng.random() < 0.5))
+    params = dict(self=SOLVED_M, always_include_endpoints=T.Bool)
+    requires = ["forall(lambda k: in_grid(self, self.solution[k]), (0, self.solution.shape[0]))"]
+    ensures = {
+        "C13.forks.indices": f"is_filter(result[0], self.solution.shape[0], lambda k: {_FORK})",
+        "C13.forks.coords": f"is_filter(result[1], self.solution, lambda k: {_FORK})",
+    }
+    loops = {
+        0: Loop(
+            head="for idx, coord in enumerate(self.solution)",
+            havoc=dict(output_idxs=lambda env: T.FiltT(env["self"].fields["solution"].dims[0]), output_coords=lambda env: T.FiltT(env["self"].fields["solution"])),
+            inv={
+                "indices": f"is_filter(output_idxs, self.solution.shape[0], lambda k: {_FORK}, _k)",
+                "coords": f"is_filter(output_coords, self.solution, lambda k: {_FORK}, _k)",
+            },
+        )
+    }
+    result = lambda env: T.TupleT(T.FiltT(env["self"].fields["solution"].dims[0], elem=T.Int), T.FiltT(env["self"].fields["solution"], elem=T.ArrT((2,), "int"), as_array=True))
+    props = ["C13"]
+
+
+@contract(F, "SolvedMaze.get_solution_path_following_points")
+class get_solution_path_following_points:
+    options = dict(gen=lambda rng: dict(self=_gen_solved(rng)))
+    params = dict(self=SOLVED_M)
+    lets = dict(always_include_endpoints="False")
+    requires = get_solution_forking_points.requires
+    ensures = {
+        # the complement of the forking points: together they partition the solution
+        "C13.following.indices": f"is_filter(result[0], self.solution.shape[0], lambda k: not {_FORK})",
+        "C13.following.coords": f"is_filter(result[1], self.solution, lambda k: not {_FORK})",
+    }
+    result = lambda env: T.TupleT(T.FiltT(env["self"].fields["solution"].dims[0], elem=T.Int, as_array=True), T.FiltT(env["self"].fields["solution"], elem=T.ArrT((2,), "int"), as_array=True))
+    props = ["C13"]
